@@ -377,6 +377,9 @@ def _seeds(run, prog):
                         if it[0] == "kw" and it[1] == sp:
                             val = it[2]
             inst = f"{fq}:{d.rsplit('.', 1)[1]}@{_nth(run, fq, d)}"
+            if val is None and "**" in kw and not (kw["**"][0] == "new" and kw["**"][2] == "dict"):
+                raise AnalysisError(f"{fq}: {d.rsplit('.', 1)[1]}(**options) at line {ev.line} takes its keyword arguments from "
+                                    f"a mapping built elsewhere ({ir.show_nl(kw['**'])[:80]}); whether it holds `{sp}` is not decided")
             if val is None:
                 run.fail("E3", inst, f"{s.path}:{ev.line}", fq, f"{d.rsplit('.', 1)[1]}(...) without {sp}",
                          f"{d} is constructed without `{sp}=`: it seeds a private generator from OS entropy, so replays under "
